@@ -173,11 +173,15 @@ class Run:
         for f in files:
             for what in toplevel_assumptions(strip_comments((COQ / f).read_text())):
                 bad.append("%s: %s outside a Section (declares an axiom)" % (f, what))
-        n_obl = 0
+        # obligations = proof scripts the kernel checks when the closure is compiled: counted as the closed proofs
+        # (Qed / Defined) of the closure's sources; the statement keywords are counted too and both are reported
+        n_obl = n_stmt = 0
         for f in files:
             txt = strip_comments((COQ / f).read_text())
-            n_obl += len(re.findall(r"^\s*(?:Local\s+|Global\s+|#\[[^\]]*\]\s*)?(?:Theorem|Lemma|Example|Corollary|Fact|Remark|Proposition)\s", txt, re.M))
+            n_stmt += len(re.findall(r"^\s*(?:Local\s+|Global\s+|#\[[^\]]*\]\s*)?(?:Theorem|Lemma|Example|Corollary|Fact|Remark|Proposition)\s", txt, re.M))
+            n_obl += len(re.findall(r"\b(?:Qed|Defined)\s*\.", txt))
         self.obligations = n_obl
+        self.statements = n_stmt
         ok, log = self.coq_make([f[:-2] + ".vo" for f in [prop_file] + list(corr_files)])
         self.proof_log = log
         closed = 0
@@ -344,6 +348,9 @@ class Run:
                        "(Print Assumptions) ; thorough tier: coqchk -silent -o" % self.prop)
         cov.setdefault("trusted_base", TRUSTED_BASE_COMMON)
         cov.setdefault("model_files", self.model_files)
+        cov.setdefault("obligations_counted_as", "closed proof scripts (Qed/Defined) in the Coq files of the dependency closure of "
+                       "Properties/%s.v and its Corr files; all are re-checked by coqc when the closure builds; "
+                       "%d statements (Theorem/Lemma/Example/...) carry them" % (self.prop, getattr(self, "statements", 0)))
         cov.setdefault("known_findings_seen", self.known_seen)
         if getattr(self, "coqchk_summary", None):
             cov.setdefault("coqchk", self.coqchk_summary)
